@@ -1,5 +1,6 @@
-"""C14: categorical IDs (a documented ID type) with an unobserved category, e.g. after filtering a table:
-phantom individuals without any visit (visit layout), or a valid table refused (event / joint / covariate layouts).
+"""C14: categorical IDs (a documented ID type) with a category that has no row -- left by a filter, or because the
+reader itself dropped an individual whose visits hold no value: phantom individuals without any visit (visit
+layout, Dataset(data) then fails), or a valid table refused (event / joint / covariate layouts).
 
 Exit status 1 when the defect is present.
 """
@@ -7,19 +8,21 @@ import sys
 import pandas as pd
 from leaspy.io.data import Data, Dataset
 
-full = pd.DataFrame({"ID": pd.Categorical(["b", "a", "b", "z"]), "TIME": [71.0, 60.0, 70.0, 50.0], "Y0": [0.1, 0.2, 0.3, 0.4]})
-df = full[full["ID"] != "z"]  # the category "z" stays in the dtype
-data = Data.from_dataframe(df)
-print("individuals:", list(data.individuals), "| visits of 'z':", data["z"].timepoints if "z" in data else "-")
-bad = list(data.individuals) != ["b", "a"]
+nan = float("nan")
+full = pd.DataFrame({"ID": pd.Categorical(["b", "a", "b", "z"]), "TIME": [71.0, 60.0, 70.0, 50.0], "Y0": [0.1, 0.2, 0.3, nan]})
+bad = False
+for name, df in (("'z' has no value", full), ("'z' filtered out", full[full["ID"] != "z"])):
+    data = Data.from_dataframe(df)  # expected individuals: b, a
+    print(name, "-> individuals:", list(data.individuals), "| visits of 'z':", data["z"].timepoints if "z" in data else "-")
+    bad |= list(data.individuals) != ["b", "a"]
+    try:
+        Dataset(data)
+    except Exception as e:
+        print("   Dataset(data):", type(e).__name__, e)
+        bad = True
 try:
-    Dataset(data)
+    Data.from_dataframe(full[full["ID"] != "z"].assign(EVENT_TIME=[80.0, 75.0, 80.0], EVENT_BOOL=[1, 0, 1]), "joint")
 except Exception as e:
-    print("Dataset(data):", type(e).__name__, e)
-    bad = True
-try:
-    Data.from_dataframe(df.assign(EVENT_TIME=[80.0, 75.0, 80.0], EVENT_BOOL=[1, 0, 1]), "joint")
-except Exception as e:
-    print("joint layout:", type(e).__name__, e)
+    print("joint layout, 'z' filtered out:", type(e).__name__, e)
     bad = True
 sys.exit(1 if bad else 0)
